@@ -2133,6 +2133,12 @@ func (m *Machine) processQueue() Result {
 	m.queueRunning.Store(false)
 	verifPoint(m, "pq:released")
 
+	// a mutation queued after the loop exit, but before the release, lost the
+	// race for the queue lock and would be stranded on an idle machine
+	if m.queueLen.Load() > 0 && !m.disposing.Load() {
+		m.processQueue()
+	}
+
 	// tracers
 	m.tracersMx.RLock()
 	for i := 0; !m.disposing.Load() && i < len(m.tracers); i++ {
